@@ -17,10 +17,12 @@ import (
 	"runtime"
 	"sort"
 	"sync"
+	"sync/atomic"
 	"testing"
 
 	"github.com/postalsys/muti-metroo/internal/identity"
 	"github.com/postalsys/muti-metroo/internal/peer"
+	"github.com/postalsys/muti-metroo/internal/protocol"
 	"github.com/postalsys/muti-metroo/internal/transport"
 	"github.com/postalsys/muti-metroo/internal/verifkit"
 )
@@ -52,7 +54,9 @@ func TestVerif_C38(t *testing.T) {
 	r := verifkit.Start(t, "C38", "alloc")
 	r.Rule("one case = one modelled connection: a dialer-side and an acceptor-side allocator (raw transport.StreamIDAllocator " +
 		"or a real peer.Connection built over a dialer/acceptor PeerConn), G in 2..64 goroutines per side released together, " +
-		"each allocating n ids with PRNG yield points; non-trivial = both sides allocated from >=2 goroutines and >=2 ids each; " +
+		"each allocating n ids with PRNG yield points; conn-writes cases (round 5): 1..6 goroutines per side, every allocation followed by " +
+		"Connection.WriteFrame of a frame with that id (STREAM_OPEN/UDP_OPEN/ICMP_OPEN/data/close/reset) over a writer that fails a PRNG-chosen third of the writes; " +
+		"non-trivial = both sides allocated >=2 ids each from >=2 goroutines (>=1 in conn-writes cases); " +
 		"distinct by (via, G, n, yield pattern seed)")
 	n := r.N(400, 2500)
 	workers := runtime.GOMAXPROCS(0)
@@ -66,15 +70,56 @@ func TestVerif_C38(t *testing.T) {
 	r.Require("ids_allocated", 500000)
 	r.Require("cases_via_connection", 50)
 	r.Require("cases_via_allocator", 50)
+	r.Add("connwrites_failed_writes", int(c38FailedWrites.Load()))
+	r.Add("connwrites_failed_stream_open_writes", int(c38FailedOpens.Load()))
+	r.Require("cases_via_conn-writes", 30)
+	r.Require("connwrites_failed_stream_open_writes", 200)
 }
 
 type c38Alloc func() uint64
 
-func c38Make(via string, dialer bool) (c38Alloc, func()) {
-	if via == "connection" {
+// c38FaultyWriter is the byte sink behind a connection's frame writer in the conn-writes
+// cases: it fails the writes a PRNG salt selects (about one in three) and swallows the rest.
+// It is only called under the connection's own write lock.
+type c38FaultyWriter struct {
+	salt, n uint64
+	failed  *atomic.Int64
+}
+
+func (w *c38FaultyWriter) Write(p []byte) (int, error) {
+	w.n++
+	if ((w.n*0x9E3779B97F4A7C15)^w.salt)>>7%3 == 0 {
+		w.failed.Add(1)
+		return 0, errors.New("c38: injected write failure")
+	}
+	return len(p), nil
+}
+
+var c38FrameKinds = []uint8{protocol.FrameStreamOpen, protocol.FrameStreamOpen, protocol.FrameStreamOpen, protocol.FrameUDPOpen,
+	protocol.FrameICMPOpen, protocol.FrameStreamData, protocol.FrameStreamClose, protocol.FrameStreamReset}
+
+var c38FailedWrites, c38FailedOpens atomic.Int64
+
+func c38Make(via string, dialer bool, salt uint64) (c38Alloc, func()) {
+	if via == "connection" || via == "conn-writes" {
 		var local identity.AgentID
 		local[0] = 1
 		c := peer.NewConnection(&c38Conn{dialer: dialer}, peer.DefaultConnectionConfig(local))
+		if via == "conn-writes" {
+			// round 5: every allocation is followed, as in the agent, by a frame carrying the new
+			// identifier (STREAM_OPEN, UDP_OPEN, ICMP_OPEN, data, close, reset); a PRNG-chosen
+			// third of the writes fail. The identifiers handed out must not depend on that.
+			peer.C38SetWriter(c, &c38FaultyWriter{salt: salt, failed: &c38FailedWrites})
+			var k atomic.Uint64
+			return func() uint64 {
+				id := c.NextStreamID()
+				kind := c38FrameKinds[((k.Add(1)*0xD1B54A32D192ED03)^salt)>>11%uint64(len(c38FrameKinds))]
+				if err := c.WriteFrame(&protocol.Frame{Type: kind, StreamID: id, Payload: []byte{0}}); err != nil && kind == protocol.FrameStreamOpen {
+					c38FailedOpens.Add(1)
+				}
+				return id
+			}, func() { c.Close() }
+		}
 		return c.NextStreamID, func() { c.Close() }
 	}
 	a := transport.NewStreamIDAllocator(dialer)
@@ -88,6 +133,10 @@ func c38Case(r *verifkit.R, phase string, ci int, rng *verifkit.Rand) {
 	}
 	g := rng.Range(2, 64)
 	per := rng.Range(2, 400)
+	if via == "allocator" && rng.Chance(1, 3) {
+		via = "conn-writes"
+		g, per = rng.Range(1, 6), rng.Range(2, 120) // few writers: a failed write is often the latest allocation
+	}
 	yieldEvery := 0
 	if rng.Bool() {
 		yieldEvery = rng.Range(1, 16)
@@ -113,7 +162,7 @@ func c38Run(r *verifkit.R, phase string, ci int, rng *verifkit.Rand, via string,
 	var wg sync.WaitGroup
 	var closers []func()
 	for si, s := range sides {
-		next, cl := c38Make(via, s.dialer)
+		next, cl := c38Make(via, s.dialer, rng.U64())
 		closers = append(closers, cl)
 		out[si] = make([][]uint64, g)
 		for k := 0; k < g; k++ {
@@ -135,7 +184,7 @@ func c38Run(r *verifkit.R, phase string, ci int, rng *verifkit.Rand, via string,
 		}
 	}
 	// connection cases: half of them are closed while the allocations are running
-	if via == "connection" && rng.Bool() {
+	if via != "allocator" && rng.Bool() {
 		for _, cl := range closers {
 			wg.Add(1)
 			cl := cl
@@ -215,7 +264,7 @@ func c38Run(r *verifkit.R, phase string, ci int, rng *verifkit.Rand, via string,
 	}
 	r.Add("cases_via_"+via, 1)
 	r.Add("goroutines_started", 2*g)
-	r.Eval(fmt.Sprintf("%s/%d/%d/%d/%d", via, g, per, yieldEvery, rng.U64()), g >= 2 && per >= 2)
+	r.Eval(fmt.Sprintf("%s/%d/%d/%d/%d", via, g, per, yieldEvery, rng.U64()), (g >= 2 || via == "conn-writes") && per >= 2)
 	if r.NeedSample() {
 		lo, hi := flat[0][0], flat[0][len(flat[0])-1]
 		r.Sample(map[string]any{"via": via, "goroutines_per_side": g, "per_goroutine": per,
@@ -293,8 +342,8 @@ func c38FirstIDs(r *verifkit.R) {
 		r.Add("ids_allocated", per*workers*2*3)
 		r.Eval(fmt.Sprintf("first-ids/%s/%d", via, per*workers), per*workers >= 1000)
 	}
-	run("first-alloc", "allocator", nAlloc, func(d bool) (c38Alloc, func()) { return c38Make("allocator", d) })
-	run("first-conn", "connection", nConn, func(d bool) (c38Alloc, func()) { return c38Make("connection", d) })
+	run("first-alloc", "allocator", nAlloc, func(d bool) (c38Alloc, func()) { return c38Make("allocator", d, 0) })
+	run("first-conn", "connection", nConn, func(d bool) (c38Alloc, func()) { return c38Make("connection", d, 0) })
 	r.Require("fresh_allocators_per_role_first_ids_checked", 1000000)
 	r.Require("fresh_connections_per_role_first_ids_checked", 200000)
 }
